@@ -114,6 +114,7 @@ class TU:
         self.canon = {}        # any redeclaration id -> id of the definition (or itself)
         self.funcs = {}        # id -> decl with body
         self.ctors = {}        # (record qname, ctorType) -> decl
+        self.ctor_decls = {}   # same key -> any declaration (possibly without body in this TU)
         self.records = {}      # qname -> decl (complete definition)
         self.enums = {}        # qname -> decl
         self.typedefs = {}     # qname -> type dict
@@ -208,6 +209,8 @@ class TU:
             n['_scope'] = sc
             n['_record'] = sc[:-2] if (k != 'FunctionDecl') else None
             self.qname[i] = sc + (name or '')
+            if k == 'CXXConstructorDecl' and not in_pattern and not n.get('isImplicit'):
+                self.ctor_decls.setdefault((sc[:-2], n['type']['qualType']), n)
             if self._body(n) is not None and not in_pattern and (n.get('mangledName') or k != 'FunctionDecl'):
                 self.funcs[i] = n
                 if k == 'CXXConstructorDecl':
@@ -263,6 +266,7 @@ class Lowerer:
         self.meta = {'functions': [], 'dropped': {'destructor_sites': 0}, 'asserts': [], 'loops': []}
         self.srcroot = srcroot
         self._names_taken = {}
+        self._calls = {}; self.may_throw = set(); self._stmt_may_throw = False; self._opaque_fields = {}
         self._assign_names()
 
     # ---------------------------------------------------------------- names
@@ -335,6 +339,7 @@ class Lowerer:
             return self._ctype_s(m.group(1), None) + ' *'     # arrays only appear decayed (parameters) here
         if q in SUGAR: return SUGAR[q]
         if q in BUILTIN: return BUILTIN[q]
+        if q.startswith('std::initializer_list<') or q.startswith('initializer_list<'): return 'struct osmt_ilist'
         for cand in (q, 'opensmt::' + q):
             if cand in self.tu.records:
                 return self._record(cand)
@@ -522,8 +527,15 @@ class Lowerer:
         if mid in self.tu.globals:
             return self._global(mid)
         base = n['inner'][0]
-        b = self.expr(base)
         name = n['name']
+        bq = self._rec_qname(base['type'])
+        if bq in self.opaque_records:
+            # field of a record that is kept opaque: one ghost object per field (contents unconstrained, only handed on to stubs)
+            g = 'g_opaque_%s_%s' % (sanitize(bq), name)
+            self._opaque_fields[g] = self.ctype(n['type'])
+            self.meta.setdefault('opaque_fields', {})[g] = n['type']['qualType']
+            return g
+        b = self.expr(base)
         if n.get('isArrow'):
             return '(%s->%s)' % (b, name)
         return '(%s.%s)' % (b, name)
@@ -612,6 +624,11 @@ class Lowerer:
             return '((void)%s)' % self.expr(inner)
         if ck in ('DerivedToBase', 'UncheckedDerivedToBase'):
             e = self.expr(inner)
+            srcq = self._rec_qname(inner['type'])
+            if srcq in self.opaque_records or srcq not in self.tu.records:
+                # the derived class is kept opaque: the base subobject is only ever handed to stubs, as a pointer
+                if self.ctype(n['type']).endswith('*'): return '((%s)%s)' % (self.ctype(n['type']), e)
+                return '(*(%s *)%s)' % (self.ctype(n['type']), self.addr(e))
             if self.ctype(n['type']).endswith('*'):
                 return '(&(%s)->__base)' % e
             return '(%s.__base)' % e
@@ -655,6 +672,9 @@ class Lowerer:
             # implicit (body-less) copy/move assignment of a lowered record = plain struct assignment
             if (full or ref).get('name') == 'operator=' and fdef is None and obj is not None and full is not None and full.get('isImplicit'):
                 return '(*%s = *%s)' % (obj, self._args(params, args)[0]) if self._strip_cv(params[0]).endswith('&') else None
+            if ref.get('name') in ('move', 'forward') and len(args) == 1 and fdef is None and obj is None:
+                # std::move / std::forward: a cast to an rvalue reference, i.e. the same object
+                return self.expr(args[0])
             if ref.get('name') == 'swap' and len(params) == 2 and fdef is None and obj is None:
                 # std::swap on scalars / pointers / plain structs: three assignments through a temporary
                 pt = self._ctype_s(self._strip_cv(params[0]).rstrip('&').strip()) if not params[0].startswith('_') else None
@@ -669,6 +689,8 @@ class Lowerer:
         a = self._args(params, args)
         if obj is not None: a = [obj] + a
         call = '%s(%s)' % (name, ', '.join(a))
+        self._calls.setdefault(self._curname, set()).add(name)
+        if name in self.may_throw: self._stmt_may_throw = True
         if self._strip_cv(ret).endswith('&'):
             return '(*%s)' % call
         return call
@@ -733,6 +755,13 @@ class Lowerer:
             if ctor is not None and not self._is_stub(ctor):
                 self._want(ctor['id'])
                 return '%s(%s)' % (self.fn_cname[ctor['id']], ', '.join([self.addr(tgt)] + self._args(params, args)))
+            cdecl = self.tu.ctor_decls.get((rec, n['ctorType']['qualType']))
+            if ctor is None and cdecl is not None:
+                # user-declared constructor whose body lives in another translation unit: a call to be resolved by the auxiliary TU or a stub
+                name = self.fn_cname.get(self.tu.canon.get(cdecl['id'], cdecl['id'])) or (sanitize(rec) + '__ctor__' + '_'.join(sanitize(p) for p in params))
+                self.extern_calls[name] = 'void %s(%s)' % (name, ', '.join([self._ctype_s(rec) + ' *'] + [self._ctype_s(p) for p in params]))
+                self._calls.setdefault(self._curname, set()).add(name)
+                return '%s(%s)' % (name, ', '.join([self.addr(tgt)] + self._args(params, args)))
             if rec in self.tu.records and ctor is None:
                 # implicit constructor of a lowered record
                 if len(args) == 0:
@@ -797,6 +826,25 @@ class Lowerer:
         t = self.tmp(self.ctype(n['type']))
         return '(%s, %s)' % (self.construct_into(n, t), t)
 
+    def e_CXXStdInitializerListExpr(self, n):
+        # {a, b, ...} handed to a std::initializer_list parameter: a local array plus (pointer, length)
+        inner = self.strip(n['inner'][0])
+        while inner.get('kind') in ('MaterializeTemporaryExpr', 'ImplicitCastExpr'): inner = self.strip(inner['inner'][0])
+        if inner.get('kind') != 'InitListExpr': raise Unsupported('initializer_list not built from a braced list at ' + self.where(n))
+        elems = inner.get('inner', [])
+        m = re.match(r'^(.*)\[(\d+)\]$', self._strip_cv(inner['type']['qualType']))
+        if not m: raise Unsupported('initializer_list backing array type ' + inner['type']['qualType'])
+        et = self._ctype_s(m.group(1))
+        self._tmpn += 1
+        arr = '__t%d' % self._tmpn
+        self._tmps.append((et, '%s[%d]' % (arr, max(1, len(elems)))))
+        parts = []
+        for k, e in enumerate(elems):
+            if et.startswith('struct ') and not et.endswith('*'): parts.append(self.construct_into(e, '%s[%d]' % (arr, k)))
+            else: parts.append('%s[%d] = %s' % (arr, k, self.expr(e)))
+        parts.append('(struct osmt_ilist){ (void *)%s, %d }' % (arr, len(elems)))
+        return '(' + ', '.join(parts) + ')'
+
     def e_CXXDefaultInitExpr(self, n):
         f = self._cur_field
         if f is None or not f.get('hasInClassInitializer'): raise Unsupported('default member initialiser without field')
@@ -824,9 +872,19 @@ class Lowerer:
         f = getattr(self, 's_' + k, None)
         pre = self.line(n)
         if f is not None:
+            if k in ('DeclStmt', 'ReturnStmt', 'ExprWithCleanups'):
+                self._stmt_may_throw = False
+                t = f(n, ind)
+                if self._stmt_may_throw and k != 'ReturnStmt':
+                    t += ind + 'if (__osmt_thrown) { %s }   /* exception propagates */\n' % self._zero_return()
+                return pre + t
             return pre + f(n, ind)
         # expression statement
-        return pre + ind + self.expr(n) + ';\n'
+        self._stmt_may_throw = False
+        t = ind + self.expr(n) + ';\n'
+        if self._stmt_may_throw:
+            t += ind + 'if (__osmt_thrown) { %s }   /* exception propagates */\n' % self._zero_return()
+        return pre + t
 
     def s_CompoundStmt(self, n, ind):
         out = ind + '{\n'
@@ -1003,6 +1061,7 @@ class Lowerer:
     def _zero_return(self):
         if self._ret_c == 'void': return 'return;'
         if self._ret_is_rec: return 'return __ret;'
+        if self._ret_is_ref: return 'return OSMT_DUMMY_PTR(%s);' % self._ret_c   # never looked at: the caller leaves at once
         return 'return (%s)0;' % self._ret_c
 
     def s_CXXTryStmt(self, n, ind): raise Unsupported('try/catch at ' + self.where(n))
@@ -1013,7 +1072,25 @@ class Lowerer:
         if i not in self.emitted and i not in self._pending:
             self._pending.append(i)
 
-    def lower(self, roots):
+    def lower(self, roots, throwing_stubs=()):
+        self._lower_once(roots)
+        # exceptions: which lowered functions may throw (directly, through a callee, or through a stub declared as throwing)?
+        direct = set(f['cname'] for f in self.meta['functions'] if f['throws']) | set(throwing_stubs)
+        if direct:
+            mt = set(direct); changed = True
+            while changed:
+                changed = False
+                for caller, callees in self._calls.items():
+                    if caller not in mt and callees & mt:
+                        mt.add(caller); changed = True
+            self.may_throw = mt
+            # second pass with the knowledge of who throws: call statements get an `if (__osmt_thrown) return` after them
+            self.emitted = {}; self.order = []; self.protos = {}; self._calls = {}
+            self.meta['functions'] = []; self.meta['asserts'] = []; self.meta['loops'] = []; self.meta.pop('throws', None)
+            self._lower_once(roots)
+            self.meta['may_throw'] = sorted(mt)
+
+    def _lower_once(self, roots):
         self._pending = []
         for r in roots:
             self._want(r['id'])
@@ -1023,6 +1100,15 @@ class Lowerer:
             self.emitted[i] = None
             self.emitted[i] = self._function(self.tu.funcs[i])
             self.order.append(i)
+
+    def _is_static(self, d):
+        # `static` is written on the in-class declaration only: follow the redeclaration chain
+        seen = set()
+        while d is not None and d.get('id') not in seen:
+            seen.add(d.get('id'))
+            if d.get('storageClass') == 'static': return True
+            d = self.tu.byid.get(d.get('previousDecl'))
+        return False
 
     def _collect_labels(self, n):
         if n.get('kind') == 'LabelStmt':
@@ -1039,7 +1125,7 @@ class Lowerer:
         ret, ptypes = split_fn_type(d['type']['qualType'])
         kind = d['kind']
         params = []
-        is_method = kind in ('CXXMethodDecl', 'CXXConstructorDecl', 'CXXDestructorDecl', 'CXXConversionDecl') and d.get('storageClass') != 'static'
+        is_method = kind in ('CXXMethodDecl', 'CXXConstructorDecl', 'CXXDestructorDecl', 'CXXConversionDecl') and not self._is_static(d)
         if is_method:
             params.append('%s *self' % self._record(d['_record']))
         pn = 0
@@ -1103,8 +1189,9 @@ class Lowerer:
             return ''
 
     # ---------------------------------------------------------------- output
-    def _emit_records(self):
-        done = []; out = ''
+    def _emit_records(self, skip=()):
+        done = list(skip); out = ''
+        self.records_emitted = done
         def emit(q):
             nonlocal out
             if q in done: return
@@ -1141,9 +1228,10 @@ class Lowerer:
             emit(self.need_records[i]); i += 1
         return out
 
-    def output(self):
+    def output(self, skip_funcs=(), skip_records=(), skip_globals=(), aux=False):
         body = ''
         for i in self.order:
+            if self.fn_cname[i] in skip_funcs: continue
             body += self.emitted[i] + '\n'
         # globals may pull in more records
         gl = ''
@@ -1151,6 +1239,7 @@ class Lowerer:
             g = self.tu.globals[i]
             ct = self.ctype(g['type'])
             name = 'g_' + sanitize(self.tu.qname[i])
+            if name in skip_globals: continue
             init = None
             if g.get('init'):
                 for c in g.get('inner', []):
@@ -1166,6 +1255,8 @@ class Lowerer:
                 gl += '%sstatic %s%s %s = %s;\n' % (tls, cq, ct, name, self.expr(init))
             else:
                 gl += '%s%s %s;\n' % (tls, ct, name)
+        for g, ct in sorted(self._opaque_fields.items()):
+            if g not in skip_globals: gl += '%s %s;\n' % (ct, g)
         hdr = '/* generated by osmt2c from the clang AST of /repo -- do not edit */\n'
         hooks = set()
         for f in self.meta['functions']: hooks.update(f['hooks'])
@@ -1175,14 +1266,27 @@ class Lowerer:
         en = ''
         for q in sorted(self.need_enums):
             for cid, (cn, val, eq) in self.tu.enumconst.items():
-                if eq == q: en += '#define %s %d\n' % (cn, val)
-        recs = self._emit_records()
-        protos = ''.join(self.protos[i] + ';\n' for i in self.order)
+                if eq == q: en += '#ifndef %s\n#define %s %d\n#endif\n' % (cn, cn, val)
+        exc = ''
+        for k, c in enumerate(sorted(set(t['class'] for t in self.meta.get('throws', [])))):
+            exc += '#ifndef OSMT_EXC_%s\n#define OSMT_EXC_%s %d\n#endif\n' % (c, c, k + 1)
+        en += exc
+        recs = self._emit_records(skip_records)
+        protos = ''.join(self.protos[i] + ';\n' for i in self.order if self.fn_cname[i] not in skip_funcs)
+        self.globals_emitted = ['g_' + sanitize(self.tu.qname[i]) for i in self.need_globals]
         ext = ''.join('/* stub: %s */\n' % s for s in sorted(self.extern_calls.values()))
         self.meta['stubs_called'] = sorted(self.extern_calls.values())
         self.meta['extern_types'] = sorted(q for _, q in self.extern_types)
-        mid = '#ifdef OSMT_MID_INCLUDE\n#include OSMT_MID_INCLUDE\n#endif\n'
-        return hdr + en + '\n#line 1 "osmt2c-types"\n' + recs + '\n' + ext + gl + '\n' + protos + '\n' + mid + hk + '\n' + body
+        mid = '' if aux else '#ifdef OSMT_MID_INCLUDE\n#include OSMT_MID_INCLUDE\n#endif\n'
+        self.pieces = {'enums': en, 'records': recs, 'externs': ext, 'globals': gl, 'protos': protos, 'hooks': hk, 'body': body}
+        return assemble([self.pieces])
+
+def assemble(pieces):
+    """one C file from the pieces of one or more lowerings (primary TU first, auxiliary TUs after it)"""
+    hdr = '/* generated by osmt2c from the clang AST of /repo -- do not edit */\n'
+    cat = lambda k: ''.join(p[k] for p in pieces)
+    mid = '#ifdef OSMT_MID_INCLUDE\n#include OSMT_MID_INCLUDE\n#endif\n'
+    return hdr + cat('enums') + '\n#line 1 "osmt2c-types"\n' + cat('records') + '\n' + cat('externs') + cat('globals') + '\n' + cat('protos') + '\n' + mid + cat('hooks') + '\n' + cat('body')
 
 def dump_ast(cc_file, out, filt='opensmt', extra=(), srcroot='/repo'):
     import subprocess
